@@ -137,6 +137,9 @@ public:
       auto ptr = impl().get_raw_value();                                       \
       detail::dynamic_check(ptr != nullptr,                                    \
                             "Pointer arithmetic on a null pointer");           \
+      detail::dynamic_check(                                                   \
+        detail::scaled_offset_does_not_wrap(raw_rhs, sizeof(*impl())),         \
+        "Pointer arithmetic offset is too large");                             \
       /* increment the target by size of the data structure */                 \
       auto target =                                                            \
         reinterpret_cast<uintptr_t>(ptr) opSymbol raw_rhs * sizeof(*impl());   \
@@ -402,6 +405,9 @@ public:
       detail::dynamic_check(ptr != nullptr,
                             "Pointer arithmetic on a null pointer");
 
+      detail::dynamic_check(
+        detail::scaled_offset_does_not_wrap(raw_rhs, sizeof(*this->impl())),
+        "Pointer arithmetic offset is too large");
       // increment the target by size of the data structure
       auto target =
         reinterpret_cast<uintptr_t>(ptr) + raw_rhs * sizeof(*this->impl());
